@@ -755,7 +755,7 @@ class Rule:
 
         """
         result = [Rule.IF, self.antecedent.text, Rule.THEN, self.consequent.text]
-        if not Op.is_close(self.weight, 1.0):
+        if not Op.is_close(self.weight, 1.0) and Op.str(self.weight) != Op.str(1.0):
             result.extend([Rule.WITH, Op.str(self.weight)])
         return " ".join(result)
 
